@@ -187,6 +187,31 @@ def Travels (rev : List (Nat × Val)) (i : Nat) : Prop :=
 def alternationAdd (m : Nat) (incs : List Val) : List Op :=
   incs.flatMap (fun d => [.shift (some (m : Int)), .add 0 d])
 
+/-! ### "the i-th most recent value written at index 0", for ANY sequence of calls
+
+`ghost` is the unbounded history of index 0, most recent first: one entry per epoch (an epoch ends
+with a shift); overwriting replaces the head, an additive write adds to it, a shift duplicates it.
+It does not know about depths. -/
+
+def ghostStep (h : Window) : Op → Window
+  | .set i v => if i = 0 then wset h 0 v else h
+  | .add i v => if i = 0 then (wadd h 0 v).getD h else h
+  | .get _ => h
+  | .shift _ => wshift h none
+
+def ghost (h : Window) : List Op → Window
+  | [] => h
+  | op :: ops => ghost (ghostStep h op) ops
+
+/-- the calls the property speaks of: writes (overwrite or additive) at index 0, reads anywhere,
+    shifts with the maximum depth `m` -/
+def fixedOp (m : Nat) : Op → Bool
+  | .set i _ => i == 0
+  | .add i _ => i == 0
+  | .get _ => true
+  | .shift (some k) => k == (m : Int)
+  | .shift none => false
+
 /-! ### the data dictionary: `data[loc][name]`, and the three functions as coded -/
 
 inductive Loc where
@@ -284,6 +309,81 @@ def cmdSeq : Data → List Cmd → Data × List Out
     | o =>
       let r' := cmdSeq r.1 cs
       (r'.1, o :: r'.2)
+
+/-! ### neighbouring entry points on the same storage: time-dependent boundary values
+
+`BoundaryConditionMixin.update_boundary_condition` (models/boundary_condition.py) pushes the current
+iterate value into the time-step history of a quantity stored on a boundary grid;
+`SolutionStrategy._revert_time_dependent_boundary_values` (models/solution_strategy.py) undoes that
+push for a rejected time step: an *un-shift* written directly on the dict. -/
+
+/-- `del d[k]` -/
+def aerase [DecidableEq κ] : List (κ × α) → κ → List (κ × α)
+  | [], _ => []
+  | p :: s, k => if p.1 = k then s else p :: aerase s k
+
+/-- `for i in range(count): stored[i] = stored[i + 1]`, starting at `i`; `false` = `KeyError` -/
+def unshiftLoop : Nat → Nat → Store → Store × Bool
+  | _, 0, s => (s, true)
+  | i, c + 1, s =>
+    match lookup s (i + 1) with
+    | none => (s, false)
+    | some v => unshiftLoop (i + 1) c (insert s i v)
+
+/-- `num_stored = len(stored); for i in range(num_stored - 1): stored[i] = stored[i + 1];
+    del stored[num_stored - 1]` -/
+def unshift (s : Store) : Store × Option Err :=
+  let r := unshiftLoop 0 (s.length - 1) s
+  if r.2 then
+    match lookup r.1 (s.length - 1) with
+    | none => (r.1, some .keyError)
+    | some _ => (aerase r.1 (s.length - 1), none)
+  else (r.1, some .keyError)
+
+/-- body of the loop of `_revert_time_dependent_boundary_values` for one stored quantity -/
+def revertOne (d : Data) (name : String) : Data × Out :=
+  match dget d (Loc.iterate, name), dget d (Loc.timeStep, name) with
+  | some _, some s =>
+    match lookup s 0 with
+    | none => (d, .ok)
+    | some v0 =>
+      let r1 := setSolutionValues d name v0 none (some 0) false
+      let u := unshift s
+      (dput r1.1 (Loc.timeStep, name) u.1, match u.2 with | none => .ok | some e => .err e)
+  | _, _ => (d, .ok)
+
+def revertLoop : Data → List String → Data × Out
+  | d, [] => (d, .ok)
+  | d, n :: rest =>
+    let r := revertOne d n
+    match r.2 with
+    | .err e => (r.1, .err e)
+    | _ => revertLoop r.1 rest
+
+/-- `_revert_time_dependent_boundary_values` on one boundary data dictionary: all quantities with
+    time-step storage, in dict order -/
+def bcRevert (d : Data) : Data × Out :=
+  revertLoop d (d.filterMap (fun p => if p.1.1 = Loc.timeStep then some p.1.2 else none))
+
+/-- `update_boundary_condition` on one boundary data dictionary; `vals` = `function(bg)`,
+    `m` = `len(self.time_step_indices)` -/
+def bcUpdate (d : Data) (name : String) (vals : Val) (m : Nat) : Data × Out :=
+  let cur : Out :=
+    match dget d (Loc.iterate, name) with
+    | some _ => getSolutionValues d name none (some 0)
+    | none => .val vals
+  match cur with
+  | .val v0 =>
+    let r1 := shiftSolutionValues d name (some Loc.timeStep) (some (m : Int))
+    match r1.2 with
+    | .err e => (r1.1, .err e)
+    | _ =>
+      let r2 := setSolutionValues r1.1 name v0 (some 0) none false
+      match r2.2 with
+      | .err e => (r2.1, .err e)
+      | _ => setSolutionValues r2.1 name vals none (some 0) false
+  | .err e => (d, .err e)
+  | .ok => (d, .ok)
 
 /-! ### the equation-system wrappers (`set_variable_values`, `get_variable_values`,
 `shift_time_step_values`, `shift_iterate_values`)
